@@ -147,7 +147,7 @@ NeedsFor(t) == {j \in JobIds : LiveJob(j) /\ jobs[j].tgt \in Deps(W3, t)}
 RunSubmit(t) ==
   /\ Submittable(t) /\ Len(jobs) < MaxJobs
   /\ LET id == Len(jobs) + 1 IN
-     /\ jobs' = Append(jobs, [tgt |-> t, st |-> "PD", hold |-> HoldFor(t), needs |-> NeedsFor(t), gone |-> FALSE])
+     /\ jobs' = Append(jobs, [tgt |-> t, st |-> "PD", hold |-> HoldFor(t), needs |-> NeedsFor(t), gone |-> FALSE, ran |-> FALSE])
      /\ gp' = [gp EXCEPT !.todo = @ \ {t}, !.mtrk[t] = id,
                          !.mhsh[t] = IF gp.hashing THEN specv[t] ELSE @]
      /\ trk' = IF PersistEachSubmit THEN gp'.mtrk ELSE trk
@@ -291,7 +291,7 @@ SchedOK == Idle \/ Interleave
 
 JobStart(j) ==
   /\ SchedOK /\ CanStart(j)
-  /\ jobs' = [jobs EXCEPT ![j].st = "R"]
+  /\ jobs' = [jobs EXCEPT ![j].st = "R", ![j].ran = TRUE]
   /\ UNCHANGED <<w, specv, fs, clock, trk, hsh, useHash, gp, conv, cnt>>
   /\ Log("JobStart", [t |-> jobs[j].tgt, j |-> j])
 
@@ -316,6 +316,26 @@ Purge(j) ==
   /\ Bump("env")
   /\ UNCHANGED <<w, specv, fs, clock, trk, hsh, useHash, gp, conv>>
   /\ Log("Purge", [t |-> jobs[j].tgt, j |-> j])
+
+(* The local worker pool differs from the cluster schedulers in two ways.  A held task whose *)
+(* prerequisites have all ended, one of them not successfully, ends at once with that          *)
+(* prerequisite's state without ever running (a cluster job would stay pending for ever).      *)
+JobInherit(j) ==
+  /\ SchedOK /\ Backend = "local" /\ jobs[j].st = "PD"
+  /\ \A k \in jobs[j].hold : Finished(k)
+  /\ \E k \in jobs[j].hold : jobs[k].st # "OK" /\ jobs' = [jobs EXCEPT ![j].st = jobs[k].st]
+  /\ Disturb
+  /\ UNCHANGED <<w, specv, fs, clock, trk, hsh, useHash, gp, cnt>>
+  /\ Log("JobInherit", [t |-> jobs[j].tgt, j |-> j])
+
+(* And the pool can be restarted: it then knows none of the earlier tasks (running ones die). *)
+(* A tracked id of an earlier pool must then count as "no record", never as another task.     *)
+PoolRestart ==
+  /\ SchedOK /\ Idle /\ Backend = "local" /\ cnt.env < MaxEnv
+  /\ jobs' = [j \in JobIds |-> [jobs[j] EXCEPT !.gone = TRUE, !.st = IF LiveJob(j) THEN "CA" ELSE @]]
+  /\ Disturb /\ Bump("env")
+  /\ UNCHANGED <<w, specv, fs, clock, trk, hsh, useHash, gp>>
+  /\ Log("PoolRestart", << >>)
 
 ---------------------------------------------------------------------------
 InitFs(wf) == [f \in AllIn(wf) \cup AllOut(wf) |->
@@ -360,11 +380,12 @@ EnvNext ==
 SchedNext ==
   \E j \in JobIds : JobStart(j) \/ (On("Purge") /\ Purge(j)) \/ JobEnd(j, TRUE, FALSE)
                      \/ (On("Ties") /\ JobEnd(j, TRUE, TRUE)) \/ (On("JobFail") /\ JobEnd(j, FALSE, FALSE))
+                     \/ JobInherit(j)
 
 (* padding for the generator: once the command budget is used up a behaviour may idle *)
 Halt == /\ Idle /\ cnt.cmds >= MaxCmds /\ UNCHANGED core /\ Log("Halt", << >>)
 
-Next == GwfNext \/ EnvNext \/ SchedNext \/ (On("Halt") /\ Halt)
+Next == GwfNext \/ EnvNext \/ SchedNext \/ (On("Halt") /\ Halt) \/ (On("PoolRestart") /\ PoolRestart)
 Spec == Init /\ [][Next]_vars
 
 ---------------------------------------------------------------------------
@@ -382,7 +403,7 @@ C09_LiveJobsTracked ==
 
 (* C07: a job that has started waited for every job that was producing its inputs *)
 C07_NoEarlyStart ==
-  \A j \in JobIds : jobs[j].st \in {"R", "OK", "FAIL"} =>
+  \A j \in JobIds : jobs[j].ran =>
      \A k \in jobs[j].needs : Finished(k) /\ (AfterOK => jobs[k].st = "OK")
 
 (* C07: the hold list names exactly the live jobs of the direct dependencies *)
